@@ -261,20 +261,20 @@ Section Final.
 
   (** the executable entry points (fuel [parse_fuel s]) under the walker's default state *)
   Corollary legacy_args_equiv_star_free : forall a p, forallb argchar_ok a = true ->
-    agree (run s false cx (parse_fuel s) (TArgs (walker_state cx) (map std_spec a) [] p))
+    agree (run s false cx (parse_fuel s cx) (TArgs (walker_state cx) (map std_spec a) [] p))
           (legacy_parse_args s false cx (walker_state cx) a false None p).
   Proof.
     intros a p Ha.
-    exact (legacy_args_equiv_run_star_free (walker_state cx) (fun _ => eq_refl) (parse_fuel s) a p Ha).
+    exact (legacy_args_equiv_run_star_free (walker_state cx) (fun _ => eq_refl) (parse_fuel s cx) a p Ha).
   Qed.
 
   (** ... and under its [in_math_mode=True] sub-context *)
   Corollary legacy_args_equiv_star_free_math : forall a p, forallb argchar_ok a = true ->
-    agree (run s false cx (parse_fuel s) (TArgs (walker_math_state cx) (map std_spec a) [] p))
+    agree (run s false cx (parse_fuel s cx) (TArgs (walker_math_state cx) (map std_spec a) [] p))
           (legacy_parse_args s false cx (walker_math_state cx) a false None p).
   Proof.
     intros a p Ha.
-    refine (legacy_args_equiv_run_star_free (walker_math_state cx) _ (parse_fuel s) a p Ha).
+    refine (legacy_args_equiv_run_star_free (walker_math_state cx) _ (parse_fuel s cx) a p Ha).
     intros q. rewrite !peek_tok_strict. apply impl_peek_walker_math.
   Qed.
 End Final.
